@@ -3,7 +3,7 @@ import FrappyProofs.Lemmas.CommRate
 open Frappy.Spec.C16
 namespace Frappy.Comm
 
-def sentPhase (p : Pc) : Bool := match p with | .read | .relI => true | _ => false
+def sentPhase (p : Pc) : Bool := match p with | .read | .relI | .readX => true | _ => false
 def afterDelay (p : Pc) : Bool := match p with
   | .check | .chkNow | .rcheck | .connecting | .visT | .cbs _ | .acqI | .slpWB | .wakeWB | .flush | .drain | .relO => true
   | _ => false
@@ -97,14 +97,29 @@ theorem ghost_nextReq (t : Nat) (k : Caller) (p1 : k.sent = k.popped) (p2 : k.to
       constructor <;> intros <;> simp_all [livePc, sentPhase, afterDelay, lastDelay]
   · constructor <;> intros <;> simp_all [livePc, sentPhase, afterDelay, lastDelay]
 
-theorem ghost_afterConnected (t : Nat) (k : Caller) (p1 : k.sent = k.popped) (p2 : k.todo = k.reqs0.drop k.popped)
-    (p3 : k.kind = .multi → 1 ≤ k.sent → k.sendT + lastDelay k ≤ t) : GhostOk t (afterConnected k) := by
-  unfold afterConnected
-  by_cases hm : k.kind = .poll
-  · simp only [hm, if_true]
-    constructor <;> intros <;> simp_all [livePc, sentPhase, afterDelay, lastDelay]
-  · simp only [hm, if_false]
-    constructor <;> intros <;> simp_all [livePc, sentPhase, afterDelay, lastDelay]
+theorem ghost_afterConnected (t : Nat) (s : State) (k : Caller) (hs : k.idSaved = []) (p1 : k.sent = k.popped)
+    (p2 : k.todo = k.reqs0.drop k.popped)
+    (p3 : k.kind = .multi → 1 ≤ k.sent → k.sendT + lastDelay k ≤ t) : GhostOk t (afterConnected s k) := by
+  rw [afterConnected_ni s hs]
+  split
+  · by_cases hm : k.kind = .poll
+    · simp only [hm, if_true]
+      constructor <;> intros <;> simp_all [livePc, sentPhase, afterDelay, lastDelay]
+    · simp only [hm, if_false]
+      constructor <;> intros <;> simp_all [livePc, sentPhase, afterDelay, lastDelay]
+  · split
+    · next hm => constructor <;> intros <;> simp_all [livePc, sentPhase, afterDelay, lastDelay]
+    · exact ghost_failTo t k
+
+theorem ghost_afterIdent (t : Nat) (s : State) (k : Caller) (hs : k.idSaved = []) (p1 : k.sent = k.popped)
+    (p2 : k.todo = k.reqs0.drop k.popped)
+    (p3 : k.kind = .multi → 1 ≤ k.sent → k.sendT + lastDelay k ≤ t) : GhostOk t (afterIdent s k) := by
+  unfold afterIdent
+  split
+  · split
+    · exact ghost_afterConnected t s k hs p1 p2 p3
+    · constructor <;> intros <;> simp_all [livePc, sentPhase, afterDelay, lastDelay]
+  · exact ghost_afterConnected t s k hs p1 p2 p3
 
 theorem ghost_toFlush (t : Nat) (s : State) (k : Caller) (p1 : k.sent = k.popped) (p2 : k.todo = k.reqs0.drop k.popped)
     (p3 : k.kind = .multi → 1 ≤ k.sent → k.sendT + lastDelay k ≤ t) : GhostOk t (toFlush s k) := by
@@ -252,19 +267,21 @@ macro "ghost_same" : tactic => `(tactic| exact ⟨rfl, rfl, rfl, rfl, rfl, rfl, 
 
 set_option maxHeartbeats 32000000 in
 theorem step_ghost (s s' : State) (t c clock : Nat) (e : Ev) (h : stepCaller s t c e = some s') (hc : clock ≤ t)
+    (hid : s.cfg.ident = []) (hf : identFree (s.callers c))
     (hG : GhostOk clock (s.callers c)) : GhostOk t (s'.callers c) := by
-  step_arms
+  step_arms_ni
   all_goals (try (simp only [setC_same]))
   all_goals (first
     | exact ghost_failTo _ _
     | (apply ghost_mono hG hc <;> first | ghost_same | (simp [hpc]; done))
     | (apply ghost_plain hG hc <;> first | ghost_same | (simp [hpc, livePc, sentPhase, afterDelay]; done))
     | (ghost_prem; apply ghost_nextReq <;> (first | exact p1 | exact p2 | exact p3); done)
-    | (ghost_prem; apply ghost_afterConnected <;> (first | exact p1 | exact p2 | exact p3); done)
+    | (ghost_prem; apply ghost_afterConnected <;> (first | exact hf.2 | exact p1 | exact p2 | exact p3); done)
+    | (ghost_prem; apply ghost_afterIdent <;> (first | exact hf.2 | exact p1 | exact p2 | exact p3); done)
     | (ghost_prem; apply ghost_toFlush <;> (first | exact p1 | exact p2 | exact p3); done)
     | (ghost_prem; split <;> first
         | exact ghost_failTo _ _
-        | (apply ghost_afterConnected <;> (first | exact p1 | exact p2 | exact p3); done)
+        | (apply ghost_afterConnected <;> (first | exact hf.2 | exact p1 | exact p2 | exact p3); done)
         | (apply ghost_toFlush <;> (first | exact p1 | exact p2 | exact p3); done)
         | (apply ghost_plain hG hc <;> first | ghost_same | (simp [hpc, livePc, sentPhase, afterDelay]; done)))
     | (apply ghost_dead; simp; done)
